@@ -50,17 +50,25 @@ func (o op) key() string {
 	if o.spell != 0 {
 		sp = fmt.Sprintf(" names=%v", spellings[o.spell])
 	}
-	if o.kind == "move" || o.kind == "copy" {
-		return o.kind + " from=" + o.from + " path=" + o.path + sp
+	q := func(p string) string { // pointers are printed as Go strings when they hold control characters
+		if strings.ContainsAny(p, "\n\r\t\u2028") {
+			return strconv.Quote(p)
+		}
+		return p
 	}
-	return o.kind + " path=" + o.path + sp
+	if o.kind == "move" || o.kind == "copy" {
+		return o.kind + " from=" + q(o.from) + " path=" + q(o.path) + sp
+	}
+	return o.kind + " path=" + q(o.path) + sp
 }
 
 var paths = []string{"", "/", "/publicKey", "/publicKey/0", "/publicKey/0/id", "/publicKey/-", "/service", "/service/0", "/service/0/serviceEndpoint",
 	"/publicKeyX", "/servic", "/services", "/other", "/other/publicKey", "/other/0", "/alsoKnownAs", "/alsoKnownAs/0", "/nonexistent", "/public~0Key",
 	"/~1publicKey", "//publicKey", "/zz", "/zz/0", "/zz/0/id", "/zz/-",
 	// pointers that do not start with '/' (not RFC 6901 pointers; what the RFC 6902 library makes of them is the library's business)
-	"publicKey", "x/publicKey", "x/publicKey/0", "x/service", "x/service/0/type", "publicKey/0", " /publicKey"}
+	"publicKey", "x/publicKey", "x/publicKey/0", "x/service", "x/service/0/type", "publicKey/0", " /publicKey",
+	// member names with line breaks and other blanks below a protected member (a pattern matcher may stop at a line break)
+	"/publicKey/0/a\nb", "/service/0/a\nb", "/publicKey/0/\n", "/publicKey/0/a\rb", "/service/0/a\u2028b", "/publicKey/0/ "}
 
 var values = []string{`{"x":1}`, `"s"`, `[{"id":"evil","type":"T"}]`}
 
